@@ -96,6 +96,16 @@ pub struct ListDescriptorsResult {
 #[cfg(ordinals_ord_verif)]
 pub static VERIF_HEADERS: std::sync::atomic::AtomicI64 = std::sync::atomic::AtomicI64::new(-1);
 
+/// Verification hook (cfg ordinals_ord_verif): when `VERIF_SIMULATE_OVERRIDE` is set,
+/// `simulaterawtransaction` answers `VERIF_SIMULATE_BALANCE_CHANGE` satoshis instead of
+/// computing the balance change from the wallet's addresses.
+#[cfg(ordinals_ord_verif)]
+pub static VERIF_SIMULATE_OVERRIDE: std::sync::atomic::AtomicBool =
+  std::sync::atomic::AtomicBool::new(false);
+#[cfg(ordinals_ord_verif)]
+pub static VERIF_SIMULATE_BALANCE_CHANGE: std::sync::atomic::AtomicI64 =
+  std::sync::atomic::AtomicI64::new(0);
+
 pub fn builder() -> Builder {
   Builder {
     fail_lock_unspent: false,
